@@ -9,7 +9,7 @@
 (* expectations are computed with the operators of Purge.tla.                 *)
 EXTENDS MC_Purge, Json, IOUtils
 
-CONSTANTS OutFile, Sample, Late   \* Late: only the scenarios with an index of more than ten chunks (resume / extension)
+CONSTANTS OutFile, Sample, ExactOnly, Late   \* ExactOnly: sample only crash-free, fault-free scenarios (C14); Late: only the scenarios with an index of more than ten chunks (resume / extension)
 VARIABLES case, stage
 
 \* the generator's universe: the four bundles of the bounded model plus one larger bundle (six more files,
@@ -73,12 +73,13 @@ R(S) == RandomElement(S)
 Pick ==
   /\ stage = "pick"
   /\ IF Sample
-       THEN \E pre \in {R(Pres)}, c \in {R(ChunkSizes)}, crash \in {R(Crashes)}, bf \in {R(BuildFaults)},
-               bw \in {R(SUBSET Bundles)}, df \in {R(DeleteFaults)} :
+       THEN \E pre \in {R(Pres)}, c \in {R(ChunkSizes)}, crash \in {R(IF ExactOnly THEN {99} ELSE Crashes)},
+               bf \in {R(IF ExactOnly THEN {"none"} ELSE BuildFaults)},
+               bw \in {R(SUBSET Bundles)}, df \in {R(IF ExactOnly THEN {"none"} ELSE DeleteFaults)} :
               \E pb \in {R(0..Len(pre))}, inc \in {R(BOOLEAN)} :
               \E rf \in {R(IF crash = 99 THEN {"none"} ELSE {"none", "scanlist"})} :
               case' = Mk(pre, c, crash, IF crash = 99 THEN bf ELSE "none", bw, df, pb,
-                         inc /\ crash = 99 /\ bf = "none" /\ df = "none", rf, R(BOOLEAN), R({"none", "none", "touch1"}))
+                         inc /\ crash = 99 /\ bf = "none" /\ df = "none", rf, R(BOOLEAN), IF ExactOnly THEN "none" ELSE R({"none", "none", "touch1"}))
        ELSE IF Late
        THEN \E pre \in {p \in Pres : \E i \in DOMAIN p : p[i] = [op |-> "up", b |-> "b5"]} :
               \E crash \in {99, 10, 12}, bw \in {{b} : b \in Bundles \ {"b5"}} :
